@@ -274,6 +274,27 @@ Definition job_model_niv (w : work_item) : option bytes :=
     Some (AESModes.cbcs_next_iv (wi_iv w) ct)
   else None.
 
+(* Destination bits on which the published algorithms AND the header are silent:
+   for the three bit-length cipher modes the bits of the last message byte that
+   lie beyond the last message bit.  [job_model] keeps the destination's value
+   there (a job "writes exactly the bits" of the message); the differ reports a
+   library/model difference confined to these bits as an undocumented corner,
+   not as a wrong cipher output.  Result: (byte index in the area, bit mask). *)
+Definition job_model_loose (w : work_item) : list (N * N) :=
+  let c := wi_cipher w in
+  if cipher_len_in_bits c then
+    let inbits := cipher_off_in_bits c in
+    let startbit := if inbits then wi_coff w else 8 * wi_coff w in
+    let endbit := startbit + wi_clen w in
+    let r := N.land endbit 7 in
+    if (r =? 0) || (wi_clen w =? 0) then []
+    else
+      let q := N.shiftr startbit 3 in
+      let aligned := N.land (N.lor startbit (wi_clen w)) 7 =? 0 in
+      let dq := if inbits && negb aligned then q else eff_doff w in
+      [(N.shiftr endbit 3 - q + dq, N.shiftr 255 r)]
+  else [].
+
 (* ------------------------------------------------------------------------- *)
 (* Hash stage of a generic job: the full-length value of the algorithm         *)
 (* ------------------------------------------------------------------------- *)
